@@ -208,6 +208,18 @@ func valueCheck(data []byte) error {
 	return nil
 }
 
+// valueCheckOf: operator-local value check (value checks may legitimately differ between
+// operators, e.g. because of local slashing protection): the "picky" operator also rejects value 2.
+func (w *world) valueCheckOf(i int) specqbft.ProposedValueCheckF {
+	picky := int(w.d.Cfg.Get("picky", -1)) == i
+	return func(data []byte) error {
+		if picky && bytes.Equal(data, []byte("value-C")) {
+			return errInvalidValue
+		}
+		return valueCheck(data)
+	}
+}
+
 func (w *world) logf(format string, a ...any) {
 	if !w.quiet {
 		w.d.Logf(format, a...)
@@ -269,7 +281,7 @@ func newWorld(d *sim.D, prop string, instanceLevel bool) *world {
 				Signer:                testingutils.NewTestingKeyManager(),
 				SigningPK:             nd.share.SharePubKey,
 				Domain:                testingutils.TestingSSVDomainType,
-				ValueCheckF:           valueCheck,
+				ValueCheckF:           w.valueCheckOf(i),
 				ProposerF:             specqbft.RoundRobinProposer,
 				Storage:               nd.store,
 				Network:               nd.net,
@@ -283,7 +295,7 @@ func newWorld(d *sim.D, prop string, instanceLevel bool) *world {
 					Signer:      testingutils.NewTestingKeyManager(),
 					SigningPK:   nd.share.SharePubKey,
 					Domain:      testingutils.TestingSSVDomainType,
-					ValueCheckF: valueCheck,
+					ValueCheckF: w.valueCheckOf(i),
 					ProposerF:   specqbft.RoundRobinProposer,
 					Network:     nd.shadowNet,
 					Timer:       nd.shadowTimer,
